@@ -140,7 +140,7 @@ def grammar(xml, target, only=None, tids=('fresh', 'same')):
                 for s1, s2 in itertools.product(S_SLOTS, S_SLOTS):
                     if s1 is None and s2 is not None:
                         continue
-                    if tid.startswith('near') and s2 is not None:
+                    if (tid.startswith('near') or tid.startswith('hyphen')) and s2 is not None:
                         continue
                     for u1, u2 in itertools.product(('#O', '#T'), repeat=2):
                         if s1 is None and (u1, u2) != ('#O', '#O'):
@@ -157,7 +157,7 @@ def grammar(xml, target, only=None, tids=('fresh', 'same')):
                             T.removeChild(s)
                         # near-*: an identifier that differs from the signed one by white space only
                         T.setAttribute('ID', {'fresh': 'evil-id', 'same': oid, 'near-trailing': oid + ' ', 'near-leading': ' ' + oid,
-                                              'near-newline': oid + '\n'}[tid])
+                                              'near-newline': oid + '\n', 'hyphen-leading': '-evil-id', 'hyphen-option': '--node-id'}[tid])
                         for e in T.getElementsByTagNameNS(SAML, 'NameID'):
                             e.firstChild.data = 'mallory'
                         if target == 'Request':
@@ -443,7 +443,7 @@ def build_tasks(ctx):
         if target == 'Assertion' and kind == 'RA' and not ctx.thorough:
             continue
         cf = [c for c in CFGS] if ctx.thorough else ([c for c in CFGS if c in ((False, True, False), (False, False, True))] if target == 'Assertion' else [c for c in CFGS if c in ((True, False, False), (False, False, True))])
-        near = ('near-trailing', 'near-leading', 'near-newline') if kind in ('A', 'R') else ()
+        near = ('near-trailing', 'near-leading', 'near-newline', 'hyphen-leading', 'hyphen-option') if kind in ('A', 'R') else ()
         for coords, xml in grammar(starts[(kind, 'sha256')], target, tids=('fresh', 'same') + near):
             coords['start'] = kind
             add(coords, xml, False, cf)
@@ -547,7 +547,7 @@ def run(ctx):
             'states': len(tasks), 'transitions': n_eval, 'traces_validated_against_impl': n_eval,
             'samples': samples, 'exhaustive': True, 'accepted': accepted, 'vacuous': vac,
             'layers': layers, 'distinct_outcomes': len(hist), 'outcome_histogram': hist,
-            'rule': 'states = distinct documents reachable from validly signed starts {assertion-signed, response-signed, both}%s by (1) the complete wrapping grammar twin (fresh ID, same ID, and IDs differing from the signed one by white space only) x original-slot x keeps-signature x two signature-copy slots x reference target, (2) every depth-1 tree edit (text/attr/delete/move/copy/wrap/dupsig/setid at every site), (3) depth-2 structural-then-follow-up family, (4) every sequence of <= 3 assertions drawn from {genuine signed, forged unsigned, encrypted for somebody else, forged encrypted for this SP, genuine encrypted for this SP} in an unsigned response; plain and encrypted (assertion-signed); transitions = (state, SP configuration) acceptance runs of the real parse_authn_request_response, each judged by the strict verifier + identity-origin oracle' % (' x all five RSA-SHA algorithms' if ctx.thorough else ''),
+            'rule': 'states = distinct documents reachable from validly signed starts {assertion-signed, response-signed, both}%s by (1) the complete wrapping grammar twin (fresh ID, same ID, IDs differing from the signed one by white space only, IDs that look like command-line options) x original-slot x keeps-signature x two signature-copy slots x reference target, (2) every depth-1 tree edit (text/attr/delete/move/copy/wrap/dupsig/setid at every site), (3) depth-2 structural-then-follow-up family, (4) every sequence of <= 3 assertions drawn from {genuine signed, forged unsigned, encrypted for somebody else, forged encrypted for this SP, genuine encrypted for this SP} in an unsigned response; plain and encrypted (assertion-signed); transitions = (state, SP configuration) acceptance runs of the real parse_authn_request_response, each judged by the strict verifier + identity-origin oracle' % (' x all five RSA-SHA algorithms' if ctx.thorough else ''),
         },
         'assumptions': ['xmlsec1 environment model (first Signature in the subtree of --node-id is verified; --id-attr registers IDs by element name); see DESIGN 4',
                         'edit depth bounded at 2 (+ grammar shapes); alphabets as listed'],
